@@ -30,7 +30,7 @@ func init() {
 		Rule: "case = one generator call: {uniform, yule, caterpillar} x tip count in -1..64,100,1000 x rooted/unrooted x seed; balanced x depth -1..10; " +
 			"star x tip count; the topology enumerator for n = 3..8 unrooted and 2..7 rooted (one more in thorough), with default and given tip names; " +
 			"every 5th case through gotree generate; one library case in eight is repeated by 6 concurrent callers x 12 calls, each result judged alike. Monitors on the returned tree WITHOUT re-indexing it: structure walker, text-vs-structure, " +
-			"tip count / unique names, degrees and rootedness, lengths >= 0, index monitor (bitsets, tip ranks, depths), shape predicates " +
+			"tip count / unique names, degrees and rootedness, lengths >= 0, index monitor (bitsets, tip ranks, branch depths), node depths (distance to the closest tip), shape predicates " +
 			"(cherries of a caterpillar, depth profile of a balanced tree, single inner node of a star), (2n-5)!!/(2n-3)!! distinct canonical " +
 			"topologies; invalid sizes must give an error value / non-zero exit without panic. non-trivial = a valid size with >= 4 tips, or an " +
 			"enumeration of >= 3 trees; distinct by (generator, size, rootedness, seed)",
@@ -85,6 +85,7 @@ func c16Judge(o *Obs, t *tree.Tree, gen string, n int, rooted bool, ctx string, 
 	if indexesExpected {
 		// "indexes ready for use": no ReinitIndexes here
 		indexMonitor(o, t, ctx+" (indexes as returned by the generator)")
+		nodeDepths(o, t, ctx+" (depths as returned by the generator)", gen)
 	}
 	switch gen {
 	case "caterpillar":
@@ -295,6 +296,67 @@ func c16Concurrent(o *Obs, gen string, n, tips int, rooted bool, ctx string) {
 			if len(o.Viols) > before {
 				return
 			}
+		}
+	}
+}
+
+// nodeDepths: the depth ComputeDepths documents for every node (0 at tips; for an unrooted tree the number of
+// branches to the closest tip, for a rooted tree to the closest tip below the node).
+func nodeDepths(o *Obs, t *tree.Tree, ctx, gen string) {
+	var below func(n, prev *tree.Node) int
+	below = func(n, prev *tree.Node) int {
+		if n.Tip() {
+			return 0
+		}
+		best := -1
+		for _, c := range n.Neigh() {
+			if c != prev {
+				if d := below(c, n); best < 0 || d+1 < best {
+					best = d + 1
+				}
+			}
+		}
+		return best
+	}
+	nodes := t.Nodes()
+	want := map[*tree.Node]int{}
+	if t.Rooted() {
+		var rec func(n, prev *tree.Node)
+		rec = func(n, prev *tree.Node) {
+			want[n] = below(n, prev)
+			for _, c := range n.Neigh() {
+				if c != prev {
+					rec(c, n)
+				}
+			}
+		}
+		rec(t.Root(), nil)
+	} else {
+		// breadth first from all tips at once
+		var cur []*tree.Node
+		for _, n := range nodes {
+			if n.Tip() {
+				want[n] = 0
+				cur = append(cur, n)
+			}
+		}
+		for len(cur) > 0 {
+			var next []*tree.Node
+			for _, n := range cur {
+				for _, c := range n.Neigh() {
+					if _, ok := want[c]; !ok {
+						want[c] = want[n] + 1
+						next = append(next, c)
+					}
+				}
+			}
+			cur = next
+		}
+	}
+	for _, n := range nodes {
+		d, err := n.Depth()
+		if !o.Check(err == nil && d == want[n], "node_depth", fmt.Sprintf("%s: a node with %d neighbours has depth %d (err %v), its closest tip is %d branches away", ctx, n.Nneigh(), d, err, want[n]), ctx, "gen", gen) {
+			return
 		}
 	}
 }
